@@ -98,6 +98,21 @@ pub fn apply_backend(b: &HnswBackend, op: &Op) -> Result<Ret, String> {
     }
 }
 
+/// The standard alphabet plus edge input shapes: replace-with-empty metadata, empty batch, batch
+/// naming absent ids around a present one, a third id carrying the same vector as id 1.
+pub fn edge_alphabet(dim: usize) -> Vec<Op> {
+    let mut v = std_alphabet(dim);
+    let same_as_first = match &v[0] {
+        Op::Ins { v, .. } => v.clone(),
+        _ => unreachable!(),
+    };
+    v.push(Op::UpdMeta { id: 1, m: Default::default(), merge: false });
+    v.push(Op::BatchDel { ids: vec![] });
+    v.push(Op::BatchDel { ids: vec![9, 2, 9] });
+    v.push(Op::Ins { id: 3, v: same_as_first, m: crate::model::meta1("a", "1") });
+    v
+}
+
 /// Standard small alphabet over ids {1,2} with unique payloads, for dimension `dim`.
 pub fn std_alphabet(dim: usize) -> Vec<Op> {
     use crate::model::meta1;
